@@ -1104,15 +1104,66 @@ class Interp:
         e.outer_guard = tuple(l for fr in self.frames[:guard_from] for l in fr.lits)
         fsm.edges.append(e)
 
+    def _inline_candidate(self, domain, v):
+        """Is `v` the defining statement of a combinational local that the reference tree does not have (a named
+        intermediate introduced by a refactoring)?  Then it is read through instead of being kept as a signal: the IR of
+        the variant equals the IR of the expression written in place.  Conditions: a whole plain local Signal bound to a
+        variable name that is not a local Signal of the reference file (sa/signals_ref.json), assigned combinationally,
+        unconditionally, outside any FSM state, by an expression of exactly its width (no truncation, no extension)."""
+        if domain != 'comb' or not isinstance(v.lhs, E) or v.lhs.op != 'sig' or not isinstance(v.rhs, E):
+            return False
+        si = v.lhs.args[0]
+        nm = getattr(si, 'var_name', None)
+        if si.kind != 'signal' or si.parent is not None or not nm or getattr(si, 'alias', None) is not None:
+            return False
+        fkey = getattr(si, 'var_file', None) or self.curfile
+        ref = _signals_ref().get(fkey)
+        if ref is None:
+            from . import alpha
+            if fkey not in alpha.reference():
+                return False                   # a file the reference tree does not have: nothing to compare with
+            ref = set()                        # a reference file without any local Signal
+        if nm in ref:
+            return False                       # the reference has a local Signal of this name
+        if si.name in v.rhs.sigs():
+            return False
+        from .ir import _known_one_bit
+        rw = 1 if _known_one_bit(v.rhs) else v.rhs.w
+        if si.w is None or rw is None or rw != si.w:
+            return False
+        if any(si.name in a.lhs_sigs() for a in self.ir.assigns):
+            return False                       # already driven elsewhere
+        return True
+
     def add_statements(self, domain, v, node):
+        if isinstance(v, Stmt) and isinstance(v.lhs, E) and any(getattr(x.args[0], 'alias', None) is not None
+                                                             for x in v.lhs.walk() if x.op == 'sig'):
+            raise AnalysisError('construct not understood: a second driver of %s, a combinational local that was read through '
+                                '(%s)' % (v.lhs.canon(), self.loc(node)))
+        if isinstance(v, Stmt) and self._inline_candidate(domain, v):
+            si = v.lhs.args[0]
+            si.alias = v.rhs
+            # defined under a condition / inside an FSM state: elsewhere the local is 0, so it may be read through only
+            # where that context holds (checked at every read, hdl.as_expr)
+            si.alias_ctx = (tuple(self.cur_states()), tuple(l.canon() for l in self.guard()))
+            self.ir.inlined_locals.append((si.name, v.rhs.canon(), str(v.loc if v.loc else self.loc(node))))
+            return
         if isinstance(v, Stmt):
-            self.order += 1
-            a = Assign(domain, v.lhs, v.rhs, self.guard(), None, self.order, v.loc if v.loc else self.loc(node))
-            sts = self.cur_states()
-            a.states = sts
-            a.state = sts[-1] if sts else None
-            a.site = self.loc(node)
-            self.ir.assigns.append(a)
+            def emit(rhs, guard):
+                if isinstance(rhs, E) and rhs.op == 'mux' and len(rhs.args) == 3 and isinstance(rhs.args[0], E):
+                    # x.eq(Mux(c, a, b)) is `with m.If(c): x.eq(a)` / `with m.Else(): x.eq(b)`: one form for both spellings
+                    c = rhs.args[0]
+                    emit(rhs.args[1], tuple(guard) + tuple(literals(c, True)))
+                    emit(rhs.args[2], tuple(guard) + tuple(literals(c, False)))
+                    return
+                self.order += 1
+                a = Assign(domain, v.lhs, rhs, guard, None, self.order, v.loc if v.loc else self.loc(node))
+                sts = self.cur_states()
+                a.states = sts
+                a.state = sts[-1] if sts else None
+                a.site = self.loc(node)
+                self.ir.assigns.append(a)
+            emit(v.rhs, self.guard())
             return
         if isinstance(v, (list, tuple)):
             for x in v:
@@ -1248,6 +1299,52 @@ def mark_collections(ip, cls, self_obj):
                 self_obj.attrs[attr] = coll
 
 
+def _subst_inlined(ir):
+    """Reads of a read-through local that did not pass hdl.as_expr (kept inside containers): substitute them now."""
+    if not ir.inlined_locals:
+        return
+
+    def sub(e):
+        if not isinstance(e, E):
+            return e
+        if e.op == 'sig':
+            al = getattr(e.args[0], 'alias', None)
+            return sub(al) if al is not None else e
+        if not any(isinstance(a, E) for a in e.args):
+            return e
+        na = tuple(sub(a) for a in e.args)
+        if all(x is y for x, y in zip(na, e.args)):
+            return e
+        return E(e.op, na, w=e.w, val=e.val, label=e.label)
+    items = list(ir.assigns) + [ed for f in ir.fsms for ed in f.edges]
+    for it in items:
+        if isinstance(getattr(it, 'rhs', None), E):
+            it.rhs = sub(it.rhs)
+        ng = []
+        for l in it.guard:
+            e2 = sub(l.e)
+            if e2 is l.e:
+                ng.append(l)
+            else:
+                ng.extend(literals(e2, l.pos, l.kind))
+        it.guard = tuple(ng)
+
+
+_SIGREF = None
+
+
+def _signals_ref():
+    global _SIGREF
+    if _SIGREF is None:
+        import json, os
+        try:
+            _SIGREF = {k: set(v) for k, v in json.load(open(os.path.join(os.path.dirname(os.path.abspath(__file__)),
+                                                                         'signals_ref.json'))).items()}
+        except (OSError, ValueError):
+            _SIGREF = {}
+    return _SIGREF
+
+
 def extract(index, cls, kwargs=None, method='elaborate', collections=True, platform=None):
     """Build the ModuleIR of `cls` (a ClassInfo): run __init__ abstractly (constructor arguments not
     given in `kwargs` take their defaults, required ones become symbolic `self.<attr>` objects), then
@@ -1278,7 +1375,10 @@ def extract(index, cls, kwargs=None, method='elaborate', collections=True, platf
         plat = None          # like the test suite: elaborate(platform=None)
     ip.callstack = []
     ir.result = ip.call_func(fr, [plat] if len(el[1].args.args) > 1 else [], {}, None)
+    _subst_inlined(ir)
     for si in ip._siglist:
+        if getattr(si, 'alias', None) is not None:
+            continue
         ir.signals.setdefault(si.name, si)
     for si in ip.interned.values():
         ir.signals.setdefault(si.name, si)
